@@ -119,7 +119,9 @@ func (p *PostingsList) OrInto(receiver *roaring.Bitmap) {
 // Iterator returns an iterator for this postings list
 func (p *PostingsList) Iterator(includeFreq, includeNorm, includeLocs bool,
 	prealloc segment.PostingsIterator) (segment.PostingsIterator, error) {
-	if p.normBits1Hit == 0 && p.postings == nil {
+	if p.normBits1Hit == 0 && (p.postings == nil || p.sb == nil) {
+		// p.sb == nil: a reused list that was re-initialised by the empty
+		// dictionary of an unknown field (it keeps its bitmap allocation)
 		return emptyPostingsIterator, nil
 	}
 
